@@ -22,6 +22,9 @@ import (
 type c16Fan struct {
 	Spec    sim.FanSpec `json:"spec"`
 	DelayMs int         `json:"delayMs"`
+	// DataOnly: RPM curve data is stored but no PWM map (older database, interrupted first start):
+	// the fan is swept on the start-up path instead of going through the initialization sequence
+	DataOnly bool `json:"dataOnly,omitempty"`
 }
 
 type c16Scenario struct {
@@ -49,7 +52,8 @@ func genC16(t *rapid.T) c16Scenario {
 			f.Quant = rapid.SampledFrom([]int{16, 51, 64}).Draw(t, "quant")
 		}
 		f.Slew = rapid.SampledFrom([]int{0, 0, 100, 300, 1000}).Draw(t, "slew")
-		sc.Fans = append(sc.Fans, c16Fan{Spec: f, DelayMs: rapid.OneOf(rapid.IntRange(0, 30000), rapid.SampledFrom([]int{0, 0, 1, 1000, 2400, 3000})).Draw(t, "delayMs")})
+		dataOnly := f.PwmMap == nil && rapid.IntRange(0, 3).Draw(t, "dataOnly") == 0
+		sc.Fans = append(sc.Fans, c16Fan{Spec: f, DataOnly: dataOnly, DelayMs: rapid.OneOf(rapid.IntRange(0, 30000), rapid.SampledFrom([]int{0, 0, 1, 1000, 2400, 3000})).Draw(t, "delayMs")})
 	}
 	return sc
 }
@@ -69,6 +73,9 @@ func runC16(t *testing.T, sc c16Scenario) verdict {
 	var rigs []*sim.Rig
 	for i, f := range sc.Fans {
 		rigs = append(rigs, sim.BuildRig(f.Spec, i, sim.RpmLaw{Theta: 0, Rpm: 1300}, 100))
+		if f.DataOnly {
+			pers.SeedLinearData(rigs[i].Fan.GetId())
+		}
 	}
 	defer func() {
 		for _, r := range rigs {
